@@ -45,7 +45,8 @@ OBLIGATIONS = {"intersect": 100, "intersect:partial-left": 5,
                "voronoi:clustered-points": 10, "voronoi:grid-origin-not-0": 30,
                "intersect:reused-object-other-set": 30, "intersect:split-grid": 50,
                "intersect:target-dtype": 30, "intersect:same-shape-shifted": 10,
-               "voronoi:near-tie": 5}
+               "voronoi:near-tie": 5, "voronoi:mirror-pair-decimal": 3,
+               "intersect:target-is-clipped-grid": 10}
 
 
 def mods():
@@ -83,6 +84,29 @@ def run_intersect_case(ctx, case):
         ctx.tag("intersect:target-dtype")
     cg = g.Grid("coarse", coarse["ncols"], coarse["nrows"], cellsize=coarse["csz"],
                 xllcorner=coarse["xll"], yllcorner=coarse["yll"], dtype=cdt)
+    pads = case.get("clip_pads")
+    if pads:
+        # the grid the weights are wanted for was itself cut out of a larger (national)
+        # grid with Grid.clip: it carries its own position in *that* grid, which has
+        # nothing to do with where the weights sit in the grid handed to intersect
+        pl, pb, pr, pt = pads
+        csz = coarse["csz"]
+        big = g.Grid("national", coarse["ncols"] + pl + pr, coarse["nrows"] + pb + pt,
+                     cellsize=csz, xllcorner=coarse["xll"] - pl * csz,
+                     yllcorner=coarse["yll"] - pb * csz, dtype=cdt)
+        try:
+            cl = big.clip(coarse["xll"] + 0.5 * csz, coarse["yll"] + 0.5 * csz,
+                          coarse["xll"] + (coarse["ncols"] - 0.5) * csz,
+                          coarse["yll"] + (coarse["nrows"] - 0.5) * csz)
+        except Exception:
+            cl = None
+        if cl is not None and (cl.ncols, cl.nrows) == (coarse["ncols"], coarse["nrows"]) \
+                and abs(cl.xllcorner - coarse["xll"]) <= 1e-9 * max(1, abs(coarse["xll"])) \
+                and abs(cl.yllcorner - coarse["yll"]) <= 1e-9 * max(1, abs(coarse["yll"])):
+            ctx.tag("intersect:target-is-clipped-grid")
+            cg = cl
+            coarse = dict(coarse, xll=float(cl.xllcorner), yll=float(cl.yllcorner))
+            case = dict(case, coarse=coarse)
     # the same catchment object answers for both cell sets, in any order of asking
     seq = [first, not first, first] if case.get("reuse", True) else [first]
     if len(seq) > 1 and set(filled_cells) != set(cells):
@@ -317,6 +341,7 @@ def run_voronoi_case(ctx, case):
     ctx.check("voronoi.repeatable", bool(np.array_equal(w, w2)), "voronoi|second-call-differs",
               case, lambda: {"first": w.tolist(), "second": w2.tolist()})
     cnt = np.zeros(len(pts))
+    amb = np.zeros(len(pts))
     tie = False
     for c in cells:
         x, y = gf.centre(c)
@@ -325,7 +350,16 @@ def run_voronoi_case(ctx, case):
         m = min(d2)
         if d2.count(m) > 1:
             tie = True
-        cnt[d2.index(m)] += 1
+        # squared distances that differ by less than double precision can tell (a few
+        # units in the last place of the sum of two squares) but are not equal: either
+        # point may own the cell
+        near = [j for j, v in enumerate(d2) if v != m and v <= m * (1 + Fraction(1, 2 ** 49))]
+        if near:
+            ctx.tag("voronoi:beyond-double-resolution")
+            for j in near + [d2.index(m)]:
+                amb[j] += 1
+        else:
+            cnt[d2.index(m)] += 1
     if tie:
         ctx.tag("voronoi:tie")
     close = 0
@@ -337,9 +371,12 @@ def run_voronoi_case(ctx, case):
     if close:
         ctx.tag("voronoi:clustered-points")
     ref = cnt / len(cells)
+    hi = (cnt + amb) / len(cells)
     ctx.check("voronoi.weights", w.shape == ref.shape and
-              bool(np.all(np.abs(w - ref) <= 1e-12)), "voronoi|weights", case,
-              lambda: {"got": w.tolist(), "expected": ref.tolist()})
+              bool(np.all(w >= ref - 1e-12)) and bool(np.all(w <= hi + 1e-12)),
+              "voronoi|weights", case,
+              lambda: {"got": w.tolist(), "expected": ref.tolist(),
+                       "expected_at_most": hi.tolist()})
     ctx.check("voronoi.nonneg-sum1", bool(np.all(w >= 0)) and abs(w.sum() - 1) <= 1e-12,
               "voronoi|normalisation", case, lambda: {"weights": w.tolist()})
     if len(pts) >= 2:
@@ -429,6 +466,8 @@ def run(ctx):
         case = {"kind": "intersect", "fine": fine, "coarse": coarse, "cells": cells,
                 "filled_cells": filled_cells, "filled": bool(it % 2),
                 "delineated": delineated}
+        if it % 3 == 1:
+            case["clip_pads"] = [int(v) for v in rng.integers(0, 6, size=4)]
         run_intersect_case(ctx, case)
         if it0 % 25 == 0:
             ctx.sample(case)
@@ -467,7 +506,23 @@ def run(ctx):
         else:
             pts = rng.integers(-6, 30, size=(npts, 2)) / 2.0
         vcells = cells if it % 5 else cells[:1]
-        if it % 2:
+        mirror = it % 8 == 5 and npts >= 2
+        if mirror:
+            # two points that are mirror images about the diagonal through the grid
+            # origin (coordinates exchanged), with decimal coordinates: exactly
+            # equidistant from every cell centre on that diagonal, whatever the rounding
+            # of the squares - the earlier one owns those cells
+            ctx.tag("voronoi:mirror-pair-decimal")
+            nd = max(2, min(nr, nc))
+            vf = {"nrows": nd, "ncols": nd, "csz": 1.0, "xll": 0.0, "yll": 0.0}
+            vcells = list(range(nd * nd))
+            a_, b_ = [round(float(v), 1 + int(rng.integers(0, 3)))
+                      for v in rng.uniform(-3, nd + 3, size=2)]
+            pts = np.round(rng.uniform(-3, nd + 3, size=(npts, 2)), 2)
+            i0, i1 = sorted(int(v) for v in rng.choice(npts, size=2, replace=False))
+            pts[i0] = [a_, b_] if rng.random() < 0.5 else [b_, a_]
+            pts[i1] = pts[i0][::-1]
+        if it % 2 and not mirror:
             vf = {"nrows": nr, "ncols": nc, "csz": vsc, "xll": vox, "yll": voy}
             pts = np.asarray(pts, dtype=float) * vsc + np.array([vox, voy])
         run_voronoi_case(ctx, {"kind": "voronoi", "fine": vf, "cells": vcells,
